@@ -162,13 +162,15 @@ func (x *runner) runSend(c sendCase) {
 				x.res.Fail(key, "a peer parsing the header does not recover what was sent: "+bad, c)
 			} else if out.ID != id {
 				x.res.Fail("C12/send/info-id", "Send does not record the id in the output stream info", c)
+			} else if out.Name.Space != t.Space || out.Name.Local != t.Local {
+				x.res.Fail("C12/send/info-name", fmt.Sprintf("Send records the opening element %v in the output stream info but prints {%s}%s", out.Name, t.Space, t.Local), c)
 			} else {
 				x.expectBack(c, wire, lang, to, from, id)
 			}
 		}
 	}
-	x.sc.Add(fmt.Sprintf("mkscase %s %s %s %s %s %s %s %s %s", hx.CoqBool(c.WS), cb(c.XMLNS), coqVer(c.Major, c.Minor),
-		cb(lang), cb(to), cb(from), cb(id), hx.CoqBytes(wire), coqParsed(t, sc, ok)), c)
+	x.sc.Add(fmt.Sprintf("mkscase %s %s %s %s %s %s %s %s (%s, %s) %s", hx.CoqBool(c.WS), cb(c.XMLNS), coqVer(c.Major, c.Minor),
+		cb(lang), cb(to), cb(from), cb(id), hx.CoqBytes(wire), cb(out.Name.Space), cb(out.Name.Local), coqParsed(t, sc, ok)), c)
 	x.res.Sample(c)
 }
 
